@@ -144,7 +144,7 @@ theorem fragments_concat_eq_sdu (c : Cfg) (maxTx : Nat) (ops : List Op) (hcap : 
     let t := (run (S.init c maxTx) ops).1.tx
     Shape t.frags ∧ (t.frags.map (payload c)).flatten <+: t.sdu ∧
     (t.size = 0 → (t.frags.map (payload c)).flatten = t.sdu) := by
-  have h := (run_txInv (c := c) hcap ops hok (s := S.init c maxTx) ⟨rfl, txInv_init c maxTx hmax⟩).tx
+  have h := (run_txInv (c := c) hcap ops hok (s := S.init c maxTx) ⟨rfl, txInv_init c maxTx hmax, by intro x hx; simp [S.init, Tx.init] at hx⟩).tx
   refine ⟨h.shape, h.prefix, ?_⟩
   intro h0
   rcases h.st with ⟨_, _, d⟩ | ⟨_, b, _⟩ | ⟨_, _, _, e, f⟩
@@ -158,11 +158,32 @@ example :
     let t := (run (S.init ⟨65, 0⟩ 29) [.bufs 3, .send f]).1.tx
     t.frags.length = 2 ∧ t.size = 0 ∧ (t.frags.map (payload ⟨65, 0⟩)).flatten = f ∧ t.sdu = f := by decide
 
-/-- "…each within the current maximum PDU size": whenever `try_send_pdus` builds a PDU (the SDU is
-    not yet sent completely and the radio has a buffer) the PDU is not larger than the radio's
-    current `max_tx_size()`, carries at least one payload byte, and its LL length field is its
-    payload length. -/
-theorem fragments_le_max_tx (c : Cfg) (t : Tx) (h : TxInv c t) (hs : t.size ≠ 0) :
+/-- "…each within the current maximum PDU size" — the maximum **at the time each fragment is
+    allocated**, for every history of size changes: after any history of operations that respects
+    the callers' contract — in particular with `max_tx_size()` changed (grown or shrunk, `.maxTx n`
+    with any `n` above the LL overhead) at any point, also between the fragments of an SDU that is
+    stalled because the radio ran out of transmit buffers — every PDU `try_send_pdus` has ever
+    committed (`allocLog` pairs it with the value `max_tx_size()` had when `sendOne` computed the size of
+    its buffer; `maxTx` is read anew in every loop iteration) is not larger than that value. -/
+theorem fragments_le_max_tx (c : Cfg) (maxTx : Nat) (ops : List Op) (hcap : c.cap < 65536)
+    (hmax : c.llOverhead < maxTx) (hok : ∀ op ∈ ops, OpOk c op) :
+    ∀ x ∈ (run (S.init c maxTx) ops).1.tx.allocLog, x.1.length ≤ x.2 :=
+  (run_txInv (c := c) hcap ops hok (s := S.init c maxTx)
+    ⟨rfl, txInv_init c maxTx hmax, by intro x hx; simp [S.init, Tx.init] at hx⟩).log
+
+/-- non-vacuity, the scenario of the missed mutation: MTU 65, `max_tx_size()` 33, one buffer: the
+    start fragment (33 bytes) goes out, the SDU stalls; the maximum shrinks to 29; three buffers later
+    the continuations are 29 and 4 bytes, allocated against 29 — not against the 33 of the start. -/
+example :
+    let f : Bytes := [56, 0, 4, 0] ++ List.replicate 56 7
+    let t := (run (S.init ⟨65, 0⟩ 33) [.bufs 1, .send f, .pump 27, .maxTx 29, .bufs 3, .pump 27]).1.tx
+    t.allocLog.map (fun x => (x.1.length, x.2)) = [(33, 33), (29, 29), (4, 29)] ∧ t.size = 0 := by
+  set_option maxRecDepth 8000 in decide
+
+/-- the same per loop iteration: whenever `try_send_pdus` builds a PDU (the SDU is not yet sent
+    completely and the radio has a buffer) the PDU is not larger than the radio's `max_tx_size()` of
+    that moment, carries at least one payload byte, and its LL length field is its payload length. -/
+theorem fragment_le_max_tx_step (c : Cfg) (t : Tx) (h : TxInv c t) (hs : t.size ≠ 0) :
     ∃ pdu copy, sendOne c t = some (pdu, copy) ∧ pdu.length ≤ t.maxTx ∧ c.llOverhead < pdu.length ∧
       pdu[1]? = some (UInt8.ofNat ((pdu.length - c.llOverhead) % 256)) := by
   obtain ⟨pdu, copy, h1, _, _, h2, h3, h4, _⟩ := sendOne_spec h hs
@@ -177,7 +198,7 @@ example : ∃ t : Tx, TxInv ⟨65, 0⟩ t ∧ t.size ≠ 0 :=
           rcases hop with rfl | rfl
           · exact trivial
           · exact ⟨36, rfl, by decide, by decide⟩)
-      ⟨rfl, txInv_init _ _ (by decide)⟩).tx, by decide⟩
+      ⟨rfl, txInv_init _ _ (by decide), by intro x hx; simp [S.init, Tx.init] at hx⟩).tx, by decide⟩
 
 /-- memory safety of the transmit side: under the callers' contract the model never reads behind
     `transmit_buffer_` and never trips the layout's size assertion, `transmit_buffer_used_ +
@@ -186,7 +207,7 @@ theorem transmit_in_bounds (c : Cfg) (maxTx : Nat) (ops : List Op) (hcap : c.cap
     (hmax : c.llOverhead < maxTx) (hok : ∀ op ∈ ops, OpOk c op) :
     let t := (run (S.init c maxTx) ops).1.tx
     t.fault = false ∧ t.buf.length = c.cap ∧ t.used + t.size ≤ c.cap := by
-  have h := (run_txInv (c := c) hcap ops hok (s := S.init c maxTx) ⟨rfl, txInv_init c maxTx hmax⟩).tx
+  have h := (run_txInv (c := c) hcap ops hok (s := S.init c maxTx) ⟨rfl, txInv_init c maxTx hmax, by intro x hx; simp [S.init, Tx.init] at hx⟩).tx
   refine ⟨h.noFault, h.len, ?_⟩
   rcases h.st with ⟨a, b, _⟩ | ⟨a, _, b, _⟩ | ⟨_, b, _⟩ <;> omega
 
